@@ -1004,6 +1004,9 @@ class _Conformer2:
         self.listener(new)
 
 
+_MISSING = object()
+
+
 def _compile(filename, tree, freevars):
     if freevars:
         if sys.version_info >= (3, 8, 0):  # pragma: no cover
@@ -1183,7 +1186,7 @@ def transform(fn, proceed, to_instrument=True, set_conformer=True):
     new_fn = _compile(filename, new_tree, freevars)
 
     fname = fn.__name__
-    save = glb.get(fname, None)
+    save = glb.get(fname, _MISSING)
     exec(new_fn, glb, glb)
 
     try:
@@ -1208,7 +1211,10 @@ def transform(fn, proceed, to_instrument=True, set_conformer=True):
     glb[fnsym] = actual_fn
 
     # However, we don't want to change the existing mapping of fn
-    glb[fname] = save
+    if save is _MISSING:
+        glb.pop(fname, None)
+    else:
+        glb[fname] = save
 
     all_vars = transformer.used | transformer.assigned
 
